@@ -686,6 +686,18 @@ def explore(ctx):
             if ls:
                 programs.append(ls)
                 meta.append(dict(mode="corpus", profile="corpus:" + fn))
+    if programs:
+        # the corpus first, on its own: a failing corpus program is reported at once (a damaged tree can make the
+        # bulk run below very slow)
+        v0 = evaluate(programs, kf)[0]
+        early = [(lines, v, m) for lines, v, m in zip(programs, v0, meta) if v.violation and not (v.vclass and v.vclass in kf)]
+        if early:
+            lines, v, m = early[0]
+            desc = "%s (corpus program %s)" % (v.violation[1], m["profile"])
+            res["violations"].append((desc, replay_text(desc, lines[:v.violation[0] + 1], kf)))
+            res["coverage"] = {"evaluations": sum(len(p_) for p_ in programs), "distinct_nontrivial": 0, "programs": len(programs),
+                               "rule": "corpus programs only: one of them fails, the random exploration was not run"}
+            return res
     for i in range(n):
         ls, m = gen_program(rng, i, scale)
         programs.append(ls)
